@@ -30,6 +30,7 @@ from ..type import (
     assert_leaf_type,
     is_enum_type,
     is_input_object_type,
+    is_input_type,
     is_list_type,
     is_non_null_type,
     is_required_input_field,
@@ -126,7 +127,9 @@ def validate_input_value_impl(
                         f" field '{field_name}', found: {inspect(input_value)}.",
                         path,
                     )
-            else:
+            elif is_input_type(field.type):
+                # a field that is not of an input type makes the schema invalid,
+                # which is reported by the schema validation, not here
                 validate_input_value_impl(
                     field_value,
                     field.type,
@@ -386,6 +389,11 @@ def validate_input_literal_impl(
                             )
                     elif value is Undefined and not is_required_input_field(field):
                         continue
+
+                if not is_input_type(field.type):
+                    # a field that is not of an input type makes the schema
+                    # invalid, which is reported by the schema validation, not here
+                    continue
 
                 validate_input_literal_impl(
                     context,
